@@ -13,6 +13,13 @@ def jobs(tier):
         J.append(job('C08', 'multifit', 3, 2, iterations=it, checks=ck))
     J.append(job('C08', 'multifit', 4, 3, iterations=1, checks=ck))
     J.append(job('C08', 'multifit', 3, 2, iterations=10, checks=ck, order='desc'))
+    # the default ten iterations on 6-7 items taking two distinct symbolic values, 4-6 bins (tier C)
+    T = tier == 'thorough'
+    for (n, k, g) in ((6, 5, [2, 4]), (6, 5, [4, 2]), (6, 4, [3, 3]), (7, 5, [6, 1]), (7, 6, [5, 2]), (6, 5, [1, 5]), (7, 5, [3, 4]), (6, 3, [2, 4]), (7, 4, [3, 4])):
+        J.append(job('C08', 'multifit', n, k, checks=ck, order='desc', groups=g))
+    if T:
+        for (n, k, g) in ((8, 5, [4, 4]), (8, 6, [6, 2]), (7, 5, [2, 2, 3]), (6, 4, [2, 2, 2])):
+            J.append(job('C08', 'multifit', n, k, checks=ck, order='desc', groups=g, mandatory=False))
     if tier == 'thorough':
         for alg in ('greedy', 'roundrobin', 'kk'):
             J.append(job('C08', alg, 5, 3, checks=ck)); J.append(job('C08', alg, 6, 3, checks=ck, order='desc'))
@@ -24,7 +31,7 @@ def jobs(tier):
 
 
 ASSUMPTIONS = ['S1 numpy shim', 'S2 exact arithmetic; multifit binary search in exact rationals (denominators k*2^j)', 'OPT from the expansion oracle']
-OUTSIDE = ['planted large instances (hundreds of items)', 'more than 5 items (quick) / 7 (thorough)', 'multifit default 10 iterations beyond (3,2)/(4,2) non-increasing input']
+OUTSIDE = ['planted large instances (hundreds of items)', 'more than 5 fully symbolic items (quick) / 7 (thorough)', 'multifit with its default 10 iterations beyond (3,2) and the tier C shapes (6-7 items taking two distinct symbolic values, 3-6 bins)']
 
 
 def post(tier, rc):
